@@ -104,7 +104,7 @@ CLAIMS = {
  "C19": dict(
    technique="static analysis: abstract interpretation of the interval source over the finite domain of weak orderings of the operands (order types), exhaustive; component-wise composition check; special-value guard dominance",
    text="For the comparison-only predicates and constructors of r1.Interval (11) and s1.Interval (14) the function's syntax is interpreted over every weak ordering of its operands and +-Pi and the result is compared with point membership of probes on every operand and in every gap: predicates equal their point-set definition, unions contain both operands, intersections contain all common points and nothing outside both, complements cover the rest, results are valid. This is exhaustive over order types and therefore over all real inputs for this code class. r2.Rect/s2.Rect operations are the same 1-D operation on both components; cap radii that may be the special empty value never enter ChordAngle.Add/Sub unguarded.",
-   note="Assumes operands of s1.Interval lie in [-Pi, Pi]. The point-set specification is written in the checker. Does not decide Expanded, Project, Center, Length, ApproxEqual, chord-angle and remaining cap arithmetic.",
+   note="Assumes operands of s1.Interval lie in [-Pi, Pi]. The point-set specification is written in the checker. Does not decide the arithmetic of Expanded (only its guards and the final containment test), Project, Center, Length, ApproxEqual, chord-angle and remaining cap arithmetic. Known finding D30 (RectFromLatLng at longitude -Pi) is listed in known_findings.json.",
    design="DESIGN.md section 3 R-ORDER/R-COMPONENT/R-SPECIAL, section 4 C19"),
 }
 
@@ -133,6 +133,29 @@ EXTRA = {
  "C19": " Also: ChordAngle.Expanded passes both sentinels through; rectangles assembled from two component results are returned only when both are non-empty; Rect.Lo/Hi are mirror images; endpoint arithmetic in Interval.Expanded (r1, s1) is reachable only past a test of the receiver's emptiness or length; s1.Interval.Expanded predicts full/empty results from the result's own length (length + 2*margin) with a conservative rounding allowance; chord angles are not combined with built-in arithmetic outside s1.",
 }
 
+# sentences appended after the sixth round of seeded changes (DESIGN.md section 9.5)
+EXTRA6 = {
+ "C01": " Round 6: the two branches of stToUV are mirror images under s -> 1-s (exact antisymmetry across a cube edge); Advance/AdvanceWrap do no signed arithmetic on the caller's step count before limiting it.",
+ "C03": " Round 6: VertexCrossing answers anything but false only behind the failed tests a == b and c == d (R-GUARD).",
+ "C04": " Round 6: Polygon.ReferencePoint accumulates the origin flag by exclusive-or over the loops; walkers of a loop's clipped edge ids read endpoints with the accessor Loop.Edge uses; stToUV's branches are mirror images; the skipped cell ranges of updateFaceEdges are ordered.",
+ "C05": " Round 6: ShapeIndexIterator.LocateCellID compares inclusive range ends inclusively (R-RANGE), Polygon.Invert shifts depths by one (R-PARTITION), iteratorContainsPoint reads edges with Loop.Edge's accessor.",
+ "C06": " Round 6: boundaryApproxIntersects (Loop, Polygon) answers true only for an index cell that has edges (R-GUARD); searches in cumulative edge-count arrays are upper-bound searches (empty loops repeat counts); the crossing query never hands out the index's own edge slices (R-NOALIAS).",
+ "C07": " Round 6: Polygon.Invert re-initialises the bound of the polygon it overwrites (R-INIT).",
+ "C08": " Round 6: the conservative threshold tests move the limit in the conservative direction; initCovering adds at least one range on every path; no named result of a multi-value call is dropped and no never-assigned local is read (R-DUP e, f).",
+ "C09": " Round 6: no direct Read([]byte) on a reader (short reads); xyzToFaceSiTi reports a cell level only behind the exact comparison of the argument's own vector with the cell centre (R-GUARD).",
+ "C10": " Round 6: a longitude plus/minus an angle becomes an interval endpoint only through math.Remainder; the same-face flags of VertexNeighbors are the tight in-face tests (they decide the fourth neighbour, on which Cap.CellUnionBound rests); a single-loop polygon resets the loop's depth.",
+ "C11": " Round 6: no wrapping successor (NextWrap/PrevWrap/AdvanceWrap) is used as a range bound or in an ordered comparison; the contents iterator raises its duplicate cut-off only on the exhausted branch of Next.",
+ "C12": " Round 6: both components of the final margin of Cell.RectBound are at least 2*dblEpsilon; Cell.MaxDistanceToEdge takes the endpoint shortcut only when both endpoints are within 90 degrees (R-GUARD).",
+ "C13": " Round 6: a package-level pointer to a struct is never stored into an object or returned (shared mutable defaults); applyUpdatesInternal moves its cursor to nextID.",
+ "C14": " Round 6: queries do not write the options they were given (R-OPTS), Reset/applyUpdatesInternal keep the pending-update cursor consistent (R-RESET).",
+ "C15": " Round 6: readFloat64 rejects NaN and infinities (R-FINITE, defect D28 repaired); no store into decoder.err sits behind 'an error is already recorded'; no call through a function value that is nil on some path; decoded loops and polygons are initialised on every non-error path (R-INIT).",
+ "C16": " Round 6: the hemisphere correction sums the vertices as (a0 + a1) + (b0 + b1), the only grouping that is bit-identical under reversal and swap.",
+ "C17": " Round 6: interiorDist's early exit is strict; the interior error formula takes a = sqrt(b(2-b)); Polyline.Project's running minimum starts above Pi.",
+ "C18": " Round 6: PolygonFromOrientedLoops normalises by the absolute turning angle.",
+ "C19": " Round 6: s1.Interval.Expanded returns the computed interval only after comparing it with the original (defect D29 repaired); outside package s1 no longitude interval is written as a literal from computed values (known finding D30, RectFromLatLng).",
+ "C20": " Round 6: the tessellation constants fit the documented error model (scale <= min(E1(x0), E2(x0)) at x0 = 1 - 2*fraction); a ChordAngle is never scaled with the built-in * or /; no SnapPoint converts a scaled coordinate to an integer narrower than 64 bits.",
+}
+
 PENDING = "check for this property is designed (DESIGN.md section 4) but not yet built in this revision; no claim is made"
 
 def main():
@@ -149,7 +172,7 @@ def main():
                 "evidence_file": f"/verif/evidence/{p}.json",
                 "replay_cmd_template": f"/verif/bin/s2lint -prop {p} -tier thorough -v   # re-derives the obligations listed in {{path}}",
                 "engine": "s2lint",
-                "level_claimed": {"category": "other", "text": c["text"] + EXTRA.get(p, ""), "design_ref": c["design"] + ", sections 9.1-9.4"},
+                "level_claimed": {"category": "other", "text": c["text"] + EXTRA.get(p, "") + EXTRA6.get(p, ""), "design_ref": c["design"] + ", sections 9.1-9.5"},
                 "level_note": c["note"],
                 "technique": c["technique"],
             })
